@@ -78,6 +78,14 @@ func tierBPrograms(thorough bool) []DfCase {
 		d := d
 		out = append(out, DfCase{Family: "nest", Kp: &d})
 	}
+	// per-fork disabling with flags produced at run time (the members of the
+	// family that have no known finding)
+	for _, d := range progen.PfDisFamily(thorough) {
+		d := d
+		if d.Dyn && (d.Cons == "plain" || (d.Cons == "pass" && d.Member)) {
+			out = append(out, DfCase{Family: "pfdis", Pf: &d})
+		}
+	}
 	return out
 }
 
@@ -169,7 +177,7 @@ func TierBDataflow(r *ev.Run, prop string) {
 		fmt.Println(err)
 		os.Exit(2)
 	}
-	deadline := tierBDeadline(r, 45*time.Second, 12*time.Minute)
+	deadline := tierBDeadline(r, 100*time.Second, 12*time.Minute)
 	if prop == "C03" {
 		if k, _, _ := ev.WorkerIndex(); k == 0 {
 			clusterOnce(r)
@@ -544,7 +552,7 @@ func TierBFaults(r *ev.Run) {
 	if os.Getenv("VERIF_NO_TIERB") != "" {
 		return
 	}
-	deadline := tierBDeadline(r, 50*time.Second, 12*time.Minute)
+	deadline := tierBDeadline(r, 110*time.Second, 12*time.Minute)
 	shapes := Shapes(true)
 	if !r.Thorough() {
 		shapes = []DfCase{shapes[2], shapes[3], shapes[5]}
@@ -833,7 +841,7 @@ func TierBCrash(r *ev.Run) {
 	if os.Getenv("VERIF_NO_TIERB") != "" {
 		return
 	}
-	deadline := tierBDeadline(r, 60*time.Second, 15*time.Minute)
+	deadline := tierBDeadline(r, 130*time.Second, 15*time.Minute)
 	all := Shapes(true)
 	shapes := []DfCase{all[2], all[3]}
 	shapes = append(shapes, CrashFileShapes(false)[:1]...)
@@ -1100,7 +1108,7 @@ func TierBResources(r *ev.Run) {
 		fmt.Println(err)
 		os.Exit(2)
 	}
-	deadline := tierBDeadline(r, 40*time.Second, 8*time.Minute)
+	deadline := tierBDeadline(r, 90*time.Second, 8*time.Minute)
 	shapes := [][2]float64{{0, 0}, {1, 1}, {2, 1}, {1, 2}, {2, 2}, {3, 1}, {1, 3}, {0.5, 0.5}, {-1, 1}}
 	var cases []BResCase
 	n := len(shapes)
